@@ -109,6 +109,18 @@ pub fn c15_world(rng: &mut Rng, n: usize, anchor_idx: usize) -> (World, Vec<Req>
         },
     );
     let anchor = cands[anchor_idx];
+    // On some seeds a few candidates other than the anchor turn out to be unusable only when the solver looks at them
+    // (Unknown dependencies): they are registered with the package's tracker first and excluded afterwards, while
+    // further candidates are still to be revealed.
+    if n >= 3 && rng.chance(1, 3) {
+        let mut k = 0;
+        for &c in &cands {
+            if c != anchor && k < 3 && rng.chance(1, 4) {
+                f.w.solvables.get_mut(&c).unwrap().deps = Deps::Unknown(0);
+                k += 1;
+            }
+        }
+    }
     // a dead alternative for unions: a package whose only candidate has Unknown dependencies, or a version
     // set that matches nothing
     let dead_vs = if rng.chance(1, 2) {
